@@ -1,3 +1,4 @@
+pub mod c0607;
 pub mod c12;
 pub mod gds;
 pub mod c13;
@@ -12,6 +13,8 @@ pub fn gen(prop: &str, thorough: bool, seed: u64, out: &mut Vec<String>) {
         "C01" | "C02" => gds::gen_c01(thorough, &mut rng, out),
         "C03" => gds::gen_c03(thorough, &mut rng, out),
         "C10" => gds::gen_c10(thorough, &mut rng, out),
+        "C06" => c0607::gen_c06(thorough, &mut rng, out),
+        "C07" => c0607::gen_c07(thorough, &mut rng, out),
         "C12" => c12::gen(thorough, &mut rng, out),
         "C13" => c13::gen(thorough, &mut rng, out),
         "C14" => c14::gen(thorough, &mut rng, out),
@@ -27,6 +30,8 @@ pub fn oracle(prop: &str, line: &str) -> String {
         "C02" => gds::oracle_c02(line),
         "C03" => gds::oracle_c03(line),
         "C10" => gds::oracle_c10(line),
+        "C06" => c0607::oracle_c06(line),
+        "C07" => c0607::oracle_c07(line),
         "C12" => c12::oracle(line),
         "C13" => c13::oracle(line),
         "C14" => c14::oracle(line),
@@ -40,6 +45,7 @@ pub fn oracle(prop: &str, line: &str) -> String {
 pub fn tag(prop: &str, line: &str) -> String {
     match prop {
         "C01" | "C02" | "C03" | "C10" => gds::tag(line),
+        "C06" | "C07" => c0607::tag(line),
         "C12" => c12::tag(line),
         "C13" => c13::tag(line),
         "C14" => c14::tag(line),
